@@ -22,10 +22,11 @@ from .. import common as cm
 from .. import narrow as nw
 from .. import narrow_bool as nb
 from .. import jolt_corr as jc
+from .. import narrow_corr as ncorr
 
 PID = "C02"
 PROOF_FILES = ["theories/Props/C02.v", "theories/Checker/NarrowB.v", "theories/Checker/Deep.v",
-               "theories/Checker/Shapes.v", "theories/Spec/Convex.v", "theories/Proofs/JoltLoop.v", "theories/Model/JoltLoop.v"]
+               "theories/Checker/Shapes.v", "theories/Spec/Convex.v", "theories/Proofs/JoltLoop.v", "theories/Model/JoltLoop.v", "theories/Model/GjkLibccd.v"]
 BOOL_FNS = ["isect_jolt", "isect_libccd", "isect_mpr", "isect_nesterov", "isect_nesterov_prim"]
 PUBLIC = dict(isect_jolt="gjk_intersection_jolt", isect_libccd="gjk_intersection_libccd", isect_mpr="mpr_intersection",
               isect_nesterov="gjk_nesterov_accelerated_intersection",
@@ -164,7 +165,14 @@ def loop_correspondence(R, cases, tier):
         keep = [(c, o) for c, o in zip(tc, out) if o is not None]
         lost = len(tc) - len(keep)
         tc, out = [k[0] for k in keep], [k[1] for k in keep]
-        stats, mism = jc.compare(PID, tc, out, R.rng, lambda c: c["meta"]["L"])
+        try:
+            stats, mism = jc.compare(PID, tc, out, R.rng, lambda c: c["meta"]["L"])
+        except RuntimeError as e:
+            if "inconsistent assumptions" not in str(e):
+                raise
+            # another build changed a dependency between our build and this evaluation: rebuild once, retry
+            cm.coq_build(["theories/Model/JoltLoopRun.vo"])
+            stats, mism = jc.compare(PID, tc, out, R.rng, lambda c: c["meta"]["L"])
     except RuntimeError as e:
         R.corr_broken.append(f"Jolt loop model could not be evaluated: {str(e)[:300]}")
         return
@@ -182,6 +190,50 @@ def loop_correspondence(R, cases, tier):
             R.corr_broken.append(f"Model/JoltLoop.v vs gjk_intersection_jolt ({fn}): {why[:600]} on c1={json.dumps(c['c1'])} c2={json.dumps(c['c2'])}")
 
 
+def libccd_mpr_correspondence(R, cases, tier):
+    """Model/GjkLibccd.v (binary64, inside coqc) replays the support points gjk_intersection_libccd and
+    mpr_intersection obtained, evaluation by evaluation: search directions, number of evaluations and the
+    boolean answer must agree (harness/narrow_corr.py, harness/impl/narrowbtrace.py)."""
+    n = 120 if tier == "quick" else 1500
+    step = max(1, len(cases) // n)
+    tc = [dict(c1=c["c1"], c2=c["c2"], fns=["libccd", "mpr"], kw={}, meta=c["meta"]) for c in cases[::step]]
+    try:
+        nwk = min(cm.NCPU, max(1, len(tc) // 6))
+        chunks = [tc[i::nwk] for i in range(nwk)]
+        res = cm.run_impl_parallel(PID, "narrowbtrace", [dict(cases=ch) for ch in chunks], timeout=1500, tag="trace2")
+        out = [None] * len(tc)
+        for w, (rr, ch) in enumerate(zip(res, chunks)):
+            if rr["status"] != "ok":
+                continue
+            for i, x in zip(range(w, len(tc), nwk), rr["result"]["results"]):
+                out[i] = x
+        keep = [(c, o) for c, o in zip(tc, out) if o is not None]
+        lost = len(tc) - len(keep)
+        tc, out = [k[0] for k in keep], [k[1] for k in keep]
+        try:
+            stats, mism = ncorr.compare(PID, tc, out, R.rng)
+        except RuntimeError as e:
+            if "inconsistent assumptions" not in str(e):
+                raise
+            cm.coq_build(["theories/Model/GjkLibccdRun.vo"])
+            stats, mism = ncorr.compare(PID, tc, out, R.rng)
+    except RuntimeError as e:
+        R.corr_broken.append(f"libccd / MPR model could not be evaluated: {str(e)[:300]}")
+        return
+    stats["worker_lost"] = lost
+    R.cov["libccd_mpr_correspondence"] = stats
+    R.cov["traces_validated_against_impl"] = R.cov.get("traces_validated_against_impl", 0) + stats.get("matched", 0)
+    if mism:
+        sub = sorted({m[0] for m in mism})
+        st2, mism2 = ncorr.compare(PID, [tc[i] for i in sub], [out[i] for i in sub], R.rng, tag="libccdcorr2", npert=24)
+        R.cov["libccd_mpr_correspondence_second_look"] = st2
+        R.cov["libccd_mpr_first_look_differences"] = [f"{fn}: {why[:400]}" for (_, fn, why) in mism[:5]]
+        for (j, fn, why) in mism2[:5]:
+            c = tc[sub[j]]
+            name = "gjk_intersection_libccd" if fn == "libccd" else "mpr_intersection"
+            R.corr_broken.append(f"Model/GjkLibccd.v vs {name}: {why[:600]} on c1={json.dumps(c['c1'])} c2={json.dumps(c['c2'])}")
+
+
 def run(tier, seed, replay=None):
     R = cm.Run(PID, "translation_validation", tier, seed)
     R.cov["rule"] = (
@@ -196,7 +248,7 @@ def run(tier, seed, replay=None):
         "a collider's point set is the exact shape expression of the floats handed to its constructor; harness/narrow.py parts() is trusted for that translation",
         "pairs for which no certificate is found (band around grazing contact, flat colliders without margin in the overlap class, witness search failed) are not judged; their number is reported",
     ]
-    R.check_proofs(PROOF_FILES, build_targets=["theories/Props/C02.vo", "theories/Model/JoltLoopRun.vo"])
+    R.check_proofs(PROOF_FILES, build_targets=["theories/Props/C02.vo", "theories/Model/JoltLoopRun.vo", "theories/Model/GjkLibccdRun.vo"])
     cases = []
     corpus = cm.VERIF / "corpus" / PID
     if replay:
@@ -287,4 +339,5 @@ def run(tier, seed, replay=None):
         R.sample(dict(c1=c["c1"], c2=c["c2"], meta=c["meta"],
                       result={r["fn"]: (r.get("ans") if "ans" in r else r.get("d", r.get("exc"))) for r in rr}))
     loop_correspondence(R, cases, tier)
+    libccd_mpr_correspondence(R, cases, tier)
     return R.finish()
